@@ -20,9 +20,9 @@ Proof. exact apply_prim_transparent. Qed.
 Print Assumptions C06_primitive_call_transparent.
 
 Theorem C06_program_transparent_at_any_depth :
-  forall (K : Type) k0 k1 kadd ksub kmul kopp kF ksign kpos kofZ fuel e env s v s',
+  forall (K : Type) k0 k1 kadd ksub kmul kopp kF ksign kpos kofZ sup fuel e env s v s',
     first_order e = true ->
-    eval K k0 k1 kadd ksub kmul kopp kF ksign kpos kofZ fuel env e s = (Val v, s') ->
+    eval K k0 k1 kadd ksub kmul kopp kF ksign kpos kofZ sup fuel env e s = (Val v, s') ->
     eval_plain K kadd ksub kmul kopp kF ksign kpos kofZ e (map (strip K) env)
     = Some (strip K v).
 Proof. exact eval_transparent. Qed.
@@ -31,7 +31,7 @@ Print Assumptions C06_program_transparent_at_any_depth.
 (* non-vacuity: x*x + F0(x) on an input boxed twice (reverse inside forward) *)
 Example C06_example :
   let x := VBox Z 1%Z (VBox Z 0%Z (VNum Z 2%Z) (NJ Z (VNum Z 1%Z))) (NV Z 0%nat) in
-  let st := {| top := 1%Z; store := [root_node Z 0%Z] |} in
+  let st := {| top := 1%Z; store := [root_node Z 0%Z]; noise := [] |} in
   match zeval 50 [x] (App2 PAdd (App2 PMul (Var 0) (Var 0)) (App1 (PF 0) (Var 0))) st with
   | (Val v, _) => strip Z v = 68%Z
   | _ => False
